@@ -76,8 +76,12 @@ def model_violates(b):
     return not all(b["spec"].values())
 
 
+MAX_TLC = 5          # TLC JVMs of one check run alive at the same time (shared 16-core machine)
+
+
 def run_parallel(ctx, jobs):
-    """jobs: {name: callable}; runs them on threads (each starts its own TLC JVM)."""
+    """jobs: {name: callable} in priority order; at most MAX_TLC run at a time (each starts
+    its own TLC JVM with a small heap and at most 4 workers)."""
     orig_subdir = ctx.subdir
 
     def locked_subdir(name):
@@ -85,7 +89,7 @@ def run_parallel(ctx, jobs):
             return orig_subdir(name)
     ctx.subdir = locked_subdir
     out = {}
-    with concurrent.futures.ThreadPoolExecutor(max_workers=len(jobs)) as ex:
+    with concurrent.futures.ThreadPoolExecutor(max_workers=MAX_TLC) as ex:
         futs = {name: ex.submit(fn) for name, fn in jobs.items()}
         err = None
         for name, f in futs.items():
@@ -109,25 +113,25 @@ def generate(ctx, prop):
     def mc(cfg, workers=4, timeout=ctx.pick(1800, 7200)):
         def f():
             r = ctx.tlc(SPEC, "MC_Gjkr", cfg=cfg, coverage=True, label=cfg, workers=workers,
-                        timeout=timeout, dump_trace=False)
+                        timeout=timeout, dump_trace=False, heap="3g")
             ctx.require_coverage(r, INITIATES + ["Receive", "Adversary"], cfg)
             return r
         return f
-    jobs["mc3"] = mc("MC_Fixed_3" if thorough else "MC_Fixed_3q")
-    if thorough:
+    if thorough:        # the long jobs first
+        jobs["mc5"] = mc("MC_Fixed_5", workers=4, timeout=9000)
         jobs["mc4"] = mc("MC_Fixed_4", workers=4, timeout=9000)
-        jobs["mc5"] = mc("MC_Fixed_5", workers=6, timeout=9000)
+    jobs["mc3"] = mc("MC_Fixed_3" if thorough else "MC_Fixed_3q")
 
     # ---- 2. the pinned design (no repairs) violates them: hazard model
     hz_cfg = "MC_AsIs_3" if prop == "C01" else "MC_AsIs_5_C02"
-    jobs["hazard"] = lambda: ctx.tlc(SPEC, "MC_Gjkr", cfg=hz_cfg, label=hz_cfg, workers=2,
+    jobs["hazard"] = lambda: ctx.tlc(SPEC, "MC_Gjkr", cfg=hz_cfg, label=hz_cfg, workers=2, heap="1g",
                                      expect=("violation",), dump_trace=False, timeout=ctx.pick(1500, 5400))
 
     # ---- 3. directed behaviour classes, with and without the repairs
     def gen(label, cfg_text, **kw):
         def f():
             r = ctx.tlc(SPEC, "Gen_Gjkr", cfg_text=cfg_text, workers=1, label=label, dump_trace=False,
-                        timeout=kw.pop("timeout", ctx.pick(1500, 5400)), **kw)
+                        heap=kw.pop("heap", "1g"), timeout=kw.pop("timeout", ctx.pick(1500, 5400)), **kw)
             return ctx.read_emitted(r, "behaviours.ndjson")
         return f
     # scripted counterexamples (the adversaries TLC found against the pinned design)
@@ -140,7 +144,7 @@ def generate(ctx, prop):
     if thorough:
         # every behaviour of the deviation classes the defects of the pinned code belong to
         jobs["dir3"] = gen("Gen_Directed3", gen_cfg(3, 1, "Corrupt3", "Directed3", "Both"), timeout=7200)
-        jobs["dir5"] = gen("Gen_Directed5", gen_cfg(5, 2, "Corrupt5", "Directed5", "Both"), timeout=9000)
+        jobs["dir5"] = gen("Gen_Directed5", gen_cfg(5, 2, "Corrupt5", "Directed5", "Both"), timeout=9000, heap="2g")
 
     # ---- 4. random composite adversaries (simulation), all corrupt sets, all orders
     nsim = ctx.pick({3: 60, 4: 60, 5: 150}, {3: 800, 4: 800, 5: 2400})
@@ -152,6 +156,9 @@ def generate(ctx, prop):
                                             mode="simulate", num=nsim[n] // parts, depth=130,
                                             simulate_seed=ctx.seed * 31 + n + 1000 * i,
                                             timeout=ctx.pick(1500, 9000))
+    # longest jobs first; at most MAX_TLC of them run at a time
+    first = [k for k in ("mc5", "dir5", "mc4", "mc3", "dir3") if k in jobs]
+    jobs = {k: jobs[k] for k in first + [k for k in jobs if k not in first]}
     res = run_parallel(ctx, jobs)
 
     rnd = random.Random(ctx.seed)
@@ -235,7 +242,7 @@ def validate_traces(ctx, prop, go):
     def one(n):
         def f():
             tp = ctx.trace_path(go, "trace_n%d" % n)
-            ok, tr = ctx.validate_trace(SPEC, "Trace_Gjkr", tp, cfg="Trace_Gjkr_%d" % n, label="Trace_Gjkr_%d" % n,
+            ok, tr = ctx.validate_trace(SPEC, "Trace_Gjkr", tp, cfg="Trace_Gjkr_%d" % n, label="Trace_Gjkr_%d" % n, heap="1g",
                                         timeout=ctx.pick(1500, 7200))
             return tp, ok, tr
         return f
